@@ -20,14 +20,16 @@ HARNESSES = [
     HA("c02_classify_float", 5, "classify_float: Ok iff finite; NaN -> undefined, inf -> "
        "float_overflow", "every f64 bit pattern"),
     HA("c02_add_f", 20, "add_f = IEEE + with overflow check", "all pairs of finite doubles"),
-    HA("c02_mul_f", 200, "mul_f = IEEE * with overflow check", "all pairs of finite doubles",
-       timeout=2400),
-    HA("c02_div_f", 400, "div_f: +-0.0 divisor -> zero_divisor, else IEEE / with overflow check",
-       "all pairs of finite doubles", timeout=3000),
+    HA("c02_mul_f", 900, "mul_f = IEEE * with overflow check", "all pairs of finite doubles",
+       tiers=T, timeout=3600),
+    HA("c02_div_f", 900, "div_f: +-0.0 divisor -> zero_divisor, else IEEE / with overflow check",
+       "all pairs of finite doubles", tiers=T, timeout=3600),
+    HA("c02_div_f_zero_guard", 30, "div_f reports zero_divisor exactly for divisors +-0.0 "
+       "(subnormals are not zero)", "all pairs of finite doubles"),
     HA("c02_promote_fixnum", 20, "fixnum -> double promotion is `as f64`, never an error",
        "full 56-bit"),
-    HA("c02_number_div_fix_fix", 200, "Fixnum / Fixnum = double quotient of promoted operands",
-       "|x|,|y| < 2^12", timeout=2400),
+    HA("c02_number_div_fix_fix", 900, "Fixnum / Fixnum = double quotient of promoted operands",
+       "|x|,|y| < 2^12", tiers=T, timeout=3600),
     HA("c02_number_div_mixed", 400, "Fixnum / Float and Float / Fixnum", "56-bit x finite double",
        tiers=T, timeout=3000),
     HA("c02_rnd_i_float", 60, "rnd_i on floats: floor inequality; |x| >= 2^55 never a fixnum "
@@ -43,8 +45,8 @@ HARNESSES = [
     HO("c02_sqrt_guard_fixnum", 30, "sqrt(negative integer) -> undefined", "56-bit"),
     HO("c02_atan2_guard", 30, "atan2(0,0) undefined for every zero representation",
        "{0, 0.0, -0.0}^2"),
-    HO("c02_div_guard", 400, "/ : zero divisor (+-0.0) -> zero_divisor else IEEE quotient",
-       "all pairs of finite doubles", timeout=3000),
+    HO("c02_div_guard", 120, "/ : divisor +-0.0 <=> zero_divisor", "all pairs of finite doubles",
+       timeout=1500),
     HO("c02_div_guard_fixnum_zero", 30, "x / 0 -> zero_divisor", "56-bit or finite double / 0"),
     HO("c02_pow_zero_negative", 60, "0 ** negative, 0.0 ^ negative undefined",
        "any negative finite exponent / negative fixnum"),
@@ -55,7 +57,8 @@ HARNESSES = [
     HO("c02_min_max_mixed", 60, "min/max of fixnum and float compare as doubles",
        "56-bit x finite double"),
     HO("c02_neg_abs_sign_float", 30, "- abs sign on floats", "every finite double"),
-    HO("c02_add_mul_mixed", 60, "fixnum + float (either order)", "56-bit x finite double"),
+    HO("c02_add_mul_mixed", 120, "fixnum + float (either order)", "56-bit x finite double",
+       timeout=1500),
     HO("c02_mul_mixed", 300, "fixnum * float", "56-bit x finite double", tiers=T, timeout=3000),
 ]
 
@@ -78,5 +81,10 @@ OUTSIDE = ("the value returned by libm functions; dashu conversions; rational/bi
            "printing of -0.0; nested expressions")
 
 
+def mpost(results):
+    from vlib.mirsmt import c02
+    return c02.run()
+
+
 def run(tier):
-    return kprop.run("C02", HARNESSES, tier, ASSUME, ENCODED, BOUNDS, OUTSIDE)
+    return kprop.run("C02", HARNESSES, tier, ASSUME, ENCODED, BOUNDS, OUTSIDE, post=mpost)
